@@ -182,6 +182,12 @@ static int OqReplay(int argc, char ** argv)
 static MessageRef FilterArchive(const std::string & kind)
 {
    MessageRef fm = GetMessageFromPool();
+   if (kind.compare(0, 2, "v:") == 0) { // v:<class>:<operator>:<length of the value | item index>:<field>
+      char cls[16] = "", fld[32] = ""; int op = 0, len = 0; if (sscanf(kind.c_str(), "v:%15[^:]:%d:%d:%31s", cls, &op, &len, fld) != 4) return fm;
+      if (!strcmp(cls, "raw")) {static const uint8 tail[5] = {9, 9, 1, 2, 3}; ByteBufferRef v = GetByteBufferFromPool((uint32) len, tail+(5-len)); (void) RawDataQueryFilter(fld, (uint8) op, v).SaveToArchive(*fm());}
+      else if (!strcmp(cls, "str")) {static const char * vals[] = {"", "", "bc", "abc", "", "xxabc"}; (void) StringQueryFilter(fld, (uint8) op, vals[len]).SaveToArchive(*fm());}
+      else (void) Int32QueryFilter(fld, (uint8) op, 3, (uint32) len).SaveToArchive(*fm());
+      return fm; }
    if (kind == "what1") (void) WhatCodeQueryFilter(1).SaveToArchive(*fm());
    else if (kind == "what2") (void) WhatCodeQueryFilter(2).SaveToArchive(*fm());
    else if (kind == "string") (void) StringQueryFilter("f", StringQueryFilter::OP_SIMPLE_WILDCARD_MATCH, "*a*").SaveToArchive(*fm());
@@ -241,10 +247,17 @@ static MessageRef BuildHostile(const J & c, const std::string & wroot)
 }
 
 // an ordinary command of the prelude / epilogue the specification gives (HostileSpace.tla)
+// payload of the nodes the hostile filters are evaluated on: a short and an empty raw field, a short and an empty string, two int32s
+static MessageRef FieldedPayload(uint32 what)
+{
+   MessageRef p = Msg(what); static const uint8 three[3] = {1, 2, 3};
+   (void) p()->AddFlat("raw", GetByteBufferFromPool(3, three)); (void) p()->AddFlat("raw0", GetByteBufferFromPool(0)); (void) p()->AddString("f", "abc"); (void) p()->AddString("s0", ""); (void) p()->AddInt32("i", 3); (void) p()->AddInt32("i", 4);
+   return p;
+}
 static MessageRef BuildPre(const J & c)
 {
    const std::string op = c["pre"].str(), p = c["p"].str(), x = c["x"].str();
-   if (op == "SETDATA") {MessageRef m = Msg(PR_COMMAND_SETDATA); (void) m()->AddMessage(p.c_str(), Msg(1)); if (x == "index") {SetDataNodeFlags f; f.SetBit(SETDATANODE_FLAG_ADDTOINDEX); (void) m()->AddFlat(PR_NAME_FLAGS, f);} return m;}
+   if (op == "SETDATA") {MessageRef m = Msg(PR_COMMAND_SETDATA); (void) m()->AddMessage(p.c_str(), FieldedPayload(1)); if (x == "index") {SetDataNodeFlags f; f.SetBit(SETDATANODE_FLAG_ADDTOINDEX); (void) m()->AddFlat(PR_NAME_FLAGS, f);} return m;}
    if (op == "INSERTORDEREDDATA") {MessageRef m = Msg(PR_COMMAND_INSERTORDEREDDATA); (void) m()->AddString(PR_NAME_KEYS, p.c_str()); (void) m()->AddMessage(x.c_str(), Msg(2)); return m;}
    if (op == "REORDERDATA") {MessageRef m = Msg(PR_COMMAND_REORDERDATA); (void) m()->AddString(p.c_str(), x.c_str()); return m;}
    MessageRef m = Msg(PR_COMMAND_REMOVEDATA); (void) m()->AddString(PR_NAME_KEYS, p.c_str()); return m;
